@@ -84,6 +84,9 @@ func jwksBody(kids []string) []byte {
 		set.Keys = append(set.Keys, jose.JSONWebKey{Key: keyOf[k].PubForJose(), KeyID: k, Use: "sig", Algorithm: "ES256"})
 	}
 	b, _ := json.Marshal(set)
+	// every published set also carries a key of a type the library does not know: it must be ignored, not fail the download
+	b = bytes.Replace(b, []byte(`{"keys":[`), []byte(`{"keys":[{"kty":"XYZ","kid":"future-1","use":"sig","x":"AAAA"},`), 1)
+	b = bytes.Replace(b, []byte(`,]`), []byte(`]`), 1)
 	return b
 }
 
@@ -117,6 +120,7 @@ type scen struct {
 	RotPre    bool     `json:"rotated_before_callers_start"` // the provider rotated after the cache was warmed, before any explored call; otherwise the rotation happens at some JWKS answer the explorer picks
 	MaxFail   int      `json:"max_failing_fetches"`
 	MaxCancel int      `json:"max_cancels"`
+	Deadline  bool     `json:"cancel_by_deadline"` // callers' contexts end by a deadline (caller i: start+(i+1)h) instead of an explicit cancel; expire(ci) advances the fake clock past caller i's deadline
 	FailKinds []string `json:"fail_kinds"`
 }
 
@@ -239,6 +243,10 @@ func (t transport) RoundTrip(req *http.Request) (*http.Response, error) {
 		return mk(500, []byte(`internal error`))
 	case "fail:json":
 		return mk(200, []byte(`{"keys":[{"kty":`))
+	case "fail:503json":
+		return mk(503, []byte(`{"message":"no healthy upstream","code":503}`))
+	case "fail:400oauth":
+		return mk(400, []byte(`{"error":"server_error","error_description":"try later"}`))
 	case "fail:transport":
 		return nil, errors.New("connection reset")
 	case "abort":
@@ -288,10 +296,10 @@ func classify(c *callerRec) string {
 	}
 	msg := c.err.Error()
 	switch {
-	case errors.Is(c.err, context.Canceled) && !strings.Contains(msg, "unable to fetch"):
+	case (errors.Is(c.err, context.Canceled) || errors.Is(c.err, context.DeadlineExceeded)) && !strings.Contains(msg, "unable to fetch"):
 		return "err:ctx"
 	case strings.Contains(msg, "unable to fetch key"):
-		if strings.Contains(msg, "context canceled") {
+		if strings.Contains(msg, "context canceled") || strings.Contains(msg, "deadline exceeded") {
 			return "err:fetch-canceled"
 		}
 		return "err:fetch"
@@ -411,10 +419,14 @@ func runIn(sc scen, ch *engine.Chooser) engine.Result {
 	if sc.RotPre {
 		e.rotated = true
 	}
+	t0 := time.Now()
 	for i, kind := range sc.Tokens {
 		i, kind := i, kind
 		c := &callerRec{}
 		ctx, cancel := context.WithCancel(context.WithValue(context.Background(), ctxKey{}, i))
+		if sc.Deadline {
+			ctx, cancel = context.WithDeadline(context.WithValue(context.Background(), ctxKey{}, i), t0.Add(time.Duration(i+1)*time.Hour))
+		}
 		c.cancel = cancel
 		c.G = e.s.Spawn(fmt.Sprintf("c%d", i), i, func() {
 			c.payload, c.err = e.ks.VerifySignature(ctx, jwsCache[fmt.Sprintf("%s/%d", kind, i)])
@@ -458,7 +470,11 @@ func runIn(sc scen, ch *engine.Chooser) engine.Result {
 				}
 				if obs {
 					cancelIdx = append(cancelIdx, i)
-					choices = append(choices, engine.E3Choice{Thread: "", Label: fmt.Sprintf("cancel(c%d)", i)})
+					if sc.Deadline {
+						choices = append(choices, engine.E3Choice{Thread: "", Label: fmt.Sprintf("expire(c%d)", i)})
+					} else {
+						choices = append(choices, engine.E3Choice{Thread: "", Label: fmt.Sprintf("cancel(c%d)", i)})
+					}
 				}
 			}
 		}
@@ -474,10 +490,20 @@ func runIn(sc scen, ch *engine.Chooser) engine.Result {
 			e.fire(en[pick])
 		} else {
 			i := cancelIdx[pick-len(en)]
-			e.callers[i].Cancelled = true
 			e.cancels++
 			e.s.EnvEvent("cancel", i)
-			e.callers[i].cancel()
+			if sc.Deadline {
+				// the clock passes caller i's deadline: every context with an earlier deadline ends too
+				for j := 0; j <= i; j++ {
+					if !e.callers[j].Returned {
+						e.callers[j].Cancelled = true
+					}
+				}
+				time.Sleep(time.Until(t0.Add(time.Duration(i+1)*time.Hour)) + time.Second)
+			} else {
+				e.callers[i].Cancelled = true
+				e.callers[i].cancel()
+			}
 		}
 	}
 	var stuck []string
@@ -770,7 +796,7 @@ func scenarios(c *engine.Check) []scen {
 	kinds := []string{"k1", "k2", "unk", "nokid", "nokid2", "forged"}
 	var out []scen
 	n := engine.Pick(c, 2, 3)
-	fk := engine.Pick(c, []string{"500"}, []string{"500", "json", "transport"})
+	fk := engine.Pick(c, []string{"500", "503json"}, []string{"500", "503json", "json", "transport", "400oauth"})
 	type rotv struct {
 		rot string
 		pre bool
@@ -805,6 +831,18 @@ func scenarios(c *engine.Check) []scen {
 	if n > 2 {
 		for _, toks := range multisets(kinds, 2) {
 			add(toks, false, fk)
+		}
+	}
+	// cancellation by deadline instead of explicit cancel (ordered pairs: only the lower-numbered caller can expire alone)
+	for _, a := range []string{"k1", "k2", "unk"} {
+		for _, b := range []string{"k1", "k2", "unk"} {
+			for _, warm := range []bool{false, true} {
+				toks := []string{a, b}
+				if n > 2 {
+					toks = append(toks, "k1")
+				}
+				out = append(out, scen{Tokens: toks, Warm: warm, Rot: "add", MaxFail: 1, MaxCancel: 1, Deadline: true, FailKinds: fk[:1]})
+			}
 		}
 	}
 	// SkipRemoteCheck only changes the kid-less path
